@@ -31,7 +31,11 @@ A. *Scope/assignment histories* (model checking).  Explicit-state BFS (``explore
        dimensions) is unchanged by clearing every cache (nothing stale leaked);
      * differential: two histories reaching the same raw state with the same scope stack have the
        same *full* observation (this is what compares derived quantities after a restore with the
-       untouched reactor).
+       untouched reactor).  While a scope is open, states reached through different enter/exit
+       sequences inside it are *not* merged (back-up slots are hidden state);
+     * both derived-quantity oracles are switched off after an exit that kept a changed
+       temperature / number-density / height / dimension parameter: the cached volume and area
+       parameters are then restored, as stated, to values that no longer match the kept ones.
 B. *Copies* in every reached state of A (scopes open or not): ``copy.deepcopy`` and a pickle round
    trip of a component, a block and an assembly (core and reactor in states up to a smaller
    history length): parameter values equal, fresh serial numbers for deep copies / the original's
@@ -43,20 +47,21 @@ C. *Read-only* (exhaustive enumeration): after ``makeParametersReadOnly`` every 
    assigned once (thorough: four value kinds), rotating the three assignment syntaxes: each must
    raise and leave every value unchanged; then every mutator method that assigns internally
    (setNumberDensity, setNumberDensities, updateNumberDensities, changeNDensByFactor,
-   setTemperature, setDimension, setHeight, setType, p.update, retainState) must leave every
-   value of the whole reactor unchanged.
+   setTemperature, setDimension, setHeight, setType, p.update; on blocks and assemblies the
+   composite-level setNumberDensity) must leave every value of the whole reactor unchanged.
 
 Class-level ``Parameter.assigned`` / ``Parameter._backup`` are reset before every execution
 (DESIGN 2.2).  Live objects are never reused across executions: every history is rebuilt from the
 blueprint text and replayed; recorded outcomes of the prefix must be found again.
 """
 import copy
+import os
 import pickle
 import random
 
 import numpy as np
 
-from mcverif import build, core, env, explore, observe
+from mcverif import build, core, explore, observe
 
 PROPERTY = "C16"
 LEVEL = "model_checking"
@@ -94,10 +99,10 @@ KEEPNAMES = [
         "C": ["percentBu", "pinNDens", "pinPercentBu", "massHmBOL", "zrFrac", "temperatureInC", "numberDensities"],
     },
 ]
-RAWFAM = ("id", "serial", "loc", "grid", "params")
 # params that are caches of public queries are observed through the query (full observation)
 RAW_EXCL = ("area",)
 MUTS = ("P", "D", "G", "H", "Q", "S", "L")
+DERIVED_INPUTS = {"temperatureInC", "numberDensities", "height"} | {"od", "id", "op", "ip", "mult"}
 
 
 def _kind(o_or_cls):
@@ -160,6 +165,8 @@ class State:
             "C2": B.getComponentByName("clad"),  # inside B, outside C
             "C3": K[1][0].getComponentByName("fuel"),  # outside A
         }
+        self.tainted = False
+        self.trace = []  # scope events since the outermost open scope was entered
         self.stack = []  # dicts: name, keep, ret, snap, csnap, inner
         self.counts = {}
 
@@ -219,8 +226,13 @@ def _fastparams(o):
         if n in _SKIP:
             continue
         v = d.get(pd.fieldName, pd.default)
-        if type(v) in _PLAIN:
-            out[n] = "nan" if (type(v) is float and v != v) else v
+        t = type(v)
+        if t in _PLAIN:
+            out[n] = "nan" if (t is float and v != v) else v
+        elif t is np.float64:
+            out[n] = "nan" if v != v else float(v)
+        elif n == "flags":
+            out[n] = str(v)
         else:
             out[n] = cv(v)
     return out
@@ -233,7 +245,8 @@ def _rawnode(o, serials):
     except AttributeError:
         d["type"] = None
     d["flags"] = str(o.p.flags)
-    d["serial"] = int(o.p.serialNum)
+    sn = o.p.serialNum
+    d["serial"] = int(sn) if isinstance(sn, (int, np.integer)) else "<%s>" % type(sn).__name__
     serials.append(d)
     d["loc"] = observe._loc(o)
     d["grid"] = observe._grid(o)
@@ -247,19 +260,25 @@ def raw(o, rank=False):
     serials = []
     d = _rawnode(o, serials)
     if rank:
-        order = {s: i for i, s in enumerate(sorted(x["serial"] for x in serials))}
+        order = {s: i for i, s in enumerate(sorted((x["serial"] for x in serials), key=str))}
         for x in serials:
             x["serial"] = order[x["serial"]]
     _decorate(o, d)
     return d
 
 
+def _cachedict(x):
+    if not isinstance(x, dict):
+        return {"__not_a_dict__": repr(type(x).__name__)}
+    return {str(k): observe.canon_value(v) for k, v in sorted(x.items(), key=lambda kv: str(kv[0]))}
+
+
 def cacheobs(o):
     from armi.reactor.components import Component
 
-    d = {"c": {str(k): observe.canon_value(v) for k, v in sorted(o.cached.items(), key=lambda kv: str(kv[0]))}}
+    d = {"c": _cachedict(o.cached)}
     if isinstance(o, Component):
-        d["m"] = {str(k): observe.canon_value(v) for k, v in sorted(o.material.cached.items(), key=lambda kv: str(kv[0]))}
+        d["m"] = _cachedict(o.material.cached)
     d["children"] = [cacheobs(c) for c in o]
     return d
 
@@ -458,10 +477,6 @@ def _short(v, n=90):
 # applying one operation to the real objects and the model
 
 
-class OpViolation(Exception):
-    pass
-
-
 def apply(s, op, check, viols, case):
     """Apply one operation; returns the outcome label. Oracles run only when ``check``."""
     name = op[0]
@@ -482,9 +497,12 @@ def apply(s, op, check, viols, case):
             if check:
                 bad("enter-raises-" + type(e).__name__, "enter(%s, keep %d) raises %r" % (oname, ki, e))
             return "raised:" + type(e).__name__
+        opath = path_to(s.r, obj)
         for fr in s.stack:
             fr["inner"] = True
-        s.stack.append({"i": op[1], "name": oname, "ki": ki, "ret": ret, "snap": snap, "csnap": csnap, "inner": False, "path": path_to(s.r, obj)})
+            fr["inner_paths"].append(opath)
+        s.trace.append(["E", op[1]])
+        s.stack.append({"i": op[1], "name": oname, "ki": ki, "ret": ret, "snap": snap, "csnap": csnap, "inner": False, "inner_paths": [], "path": opath})
         if check:
             for d in rawdiff(pre, raw(s.r))[:3]:
                 bad("enter-changes-" + d[0], "enter(%s, keep %d) changed %s %s at %s: %s -> %s" % (oname, ki, d[0], d[1], d[2], _short(d[3]), _short(d[4])))
@@ -492,8 +510,19 @@ def apply(s, op, check, viols, case):
 
     if name == "exit":
         fr = s.stack.pop()
+        s.trace = s.trace + [["X"]] if s.stack else []
         obj = s.o[fr["name"]]
         pre = raw(s.r) if check else None
+        if check or fr["ki"]:
+            pre_sub = node_at(pre, fr["path"]) if check else raw(obj)
+            exp_sub = expected_subtree(fr["snap"], pre_sub, fr["ki"])
+        if fr["ki"]:
+            # a kept parameter that feeds derived quantities keeps its new value while the cached
+            # volume/area parameters are (as stated) restored: derived quantities are then outside
+            # the reference model, the stale-cache and differential oracles are switched off
+            for d in rawdiff(fr["snap"], exp_sub):
+                if d[0] == "param" and d[1] in DERIVED_INPUTS:
+                    s.tainted = True
         try:
             fr["ret"].__exit__(None, None, None)
         except Exception as e:
@@ -505,7 +534,6 @@ def apply(s, op, check, viols, case):
             return "raised:" + type(e).__name__
         if check:
             post = raw(s.r)
-            exp_sub = expected_subtree(fr["snap"], node_at(pre, fr["path"]), fr["ki"])
             exp = replaced(pre, fr["path"], exp_sub)
             seen = set()
             for fam, det, path, want, got in rawdiff(exp, post):
@@ -514,9 +542,13 @@ def apply(s, op, check, viols, case):
                 if fam == "param":
                     kept = det in KEEPNAMES[fr["ki"]].get(_kind(nd["cls"]), ()) and inside
                     key = "exit-param-%s-%s" % (_pkind(nd["cls"], det), ("kept-not-retained" if kept else "not-restored") if inside else "outside-scope-changed")
+                elif fam == "links":  # same mechanism as the dimension parameter that holds the link
+                    key = "exit-param-dimension-%s" % ("not-restored" if inside else "outside-scope-changed")
                 else:
                     key = "exit-%s-%s" % (fam, "not-restored" if inside else "outside-scope-changed")
-                if fr["inner"]:
+                # the object was backed up twice at the same time (it also lay in an inner scope)
+                twice = inside and any(path[: len(ip)] == ip for ip in fr["inner_paths"])
+                if twice:
                     key += "-after-inner-scope"
                 if key in seen:
                     continue
@@ -524,7 +556,7 @@ def apply(s, op, check, viols, case):
                 bad(
                     key,
                     "after exit of scope on %s (keep-set %d%s) %s %s of %s %r at path %s is %s, expected %s"
-                    % (fr["name"], fr["ki"], ", an inner scope was opened and closed meanwhile" if fr["inner"] else "", fam, det, nd["cls"], nd["name"], path, _short(got), _short(want)),
+                    % (fr["name"], fr["ki"], ", an inner scope containing the object was opened and closed meanwhile" if twice else "", fam, det, nd["cls"], nd["name"], path, _short(got), _short(want)),
                 )
             cd = observe.diff(fr["csnap"], cacheobs(obj))
             if cd:
@@ -564,7 +596,7 @@ def enabled_ops(s, hist):
 
 
 def _serials(o):
-    return [int(x.p.serialNum) for x in [o] + list(o.iterChildren(deep=True))]
+    return [x.p.serialNum for x in [o] + list(o.iterChildren(deep=True))]
 
 
 def _valobs(o):
@@ -637,7 +669,7 @@ def copy_checks(s, case, heavy, root0=None):
     ncopies = 0
     for nm in names:
         o = s.o[nm]
-        want = _valobs(o)
+        want = _strip(node_at(root0, path_to(s.r, o)))
         oser = _serials(o)
         for how in ("deepcopy", "pickle"):
             try:
@@ -708,7 +740,11 @@ def expand(item):
     rw = raw(s.r)
     canon = {
         "raw": observe.digest(_norank(rw)),
-        "serialorder": _serialorder(rw),
+        "serialorder": observe.digest(_serialorder(rw)),
+        "tainted": s.tainted,
+        # back-up slots are hidden state: while a scope is open, states reached through different
+        # enter/exit sequences inside it are kept apart (their futures differ if a slot is clobbered)
+        "trace": s.trace,
         "cache": observe.digest(cacheobs(s.r)),
         "stack": [[fr["name"], fr["ki"], fr["i"]] for fr in s.stack],
         "flags": _flagobs(s),
@@ -720,8 +756,8 @@ def expand(item):
     if not viols and out == "ok":
         f1 = full(s.r)
         _LAST["full"] = f1
-        fl = observe.digest(f1)
-        if hist and hist[-1][0] == "exit" and "__raises__" not in f1:
+        fl = None if s.tainted else observe.digest(f1)
+        if not s.tainted and hist and hist[-1][0] == "exit" and "__raises__" not in f1:
             s.r.clearCache()
             for c in s.r.iterChildren(deep=True):
                 m = getattr(c, "material", None)
@@ -730,6 +766,7 @@ def expand(item):
             f2 = full(s.r)
             d = observe.diff(f1, f2)
             if d:
+                fl = None  # one mechanism, one key: no differential report on top of this
                 viols.append(core.viol("c16/exit-stale-cache", "history %s: after the exit, clearing every cache changes observable quantities (a stale value survived the scope): %s" % (hist, d[:3]), case))
         if not viols:
             v2, ncopies = copy_checks(s, case, len(hist) <= init.get("heavy", 2), rw)
@@ -766,7 +803,7 @@ def _serialorder(d):
             walk(c)
 
     walk(d)
-    order = {v: i for i, v in enumerate(sorted(ser))}
+    order = {v: i for i, v in enumerate(sorted(ser, key=lambda v: (isinstance(v, str), v)))}
     return [order[v] for v in ser]
 
 
@@ -802,6 +839,10 @@ def _ro_values(cur, j, nkinds):
     return [vals[(j + i) % 4] for i in range(nkinds)]
 
 
+# mutators that reach the same assignment share a key
+_MECH = {"updateNumberDensities": "setNumberDensity", "Block.setNumberDensity": "setNumberDensity", "Assembly.setNumberDensity": "setNumberDensity"}
+
+
 def _mutators(o):
     from armi.reactor import assemblies, blocks
     from armi.reactor.components import Component
@@ -823,13 +864,15 @@ def _mutators(o):
                 break
         m.append(("setType", lambda: o.setType("shield")))
     elif isinstance(o, blocks.Block):
+        nuc = sorted(o.getNuclides())[0]
         m += [
             ("setHeight", lambda: o.setHeight(o.getHeight() + 1.0)),
-            ("Block.setNumberDensity", lambda: o.setNumberDensity("NA", 0.03)),
+            ("Block.setNumberDensity", lambda: o.setNumberDensity(nuc, 0.03)),
             ("setType", lambda: o.setType("shield")),
         ]
     elif isinstance(o, assemblies.Assembly):
-        m += [("setType", lambda: o.setType("shield")), ("Assembly.setNumberDensity", lambda: o.setNumberDensity("NA", 0.03))]
+        nuc = sorted(o.getNuclides())[0]
+        m += [("setType", lambda: o.setType("shield")), ("Assembly.setNumberDensity", lambda: o.setNumberDensity(nuc, 0.03))]
     return m
 
 
@@ -897,7 +940,7 @@ def ro_eval(case):
             if d:
                 x = d[0]
                 bad(
-                    "readonly-%s-%s-value-changed" % (name, "raises-but" if exc else "accepted"),
+                    "readonly-%s-%s-value-changed" % (_MECH.get(name, name), "raises-but" if exc else "accepted"),
                     "%s %s, and %s %s at %s changed: %s -> %s" % (name, "raises " + exc if exc else "returns normally", x[0], x[1], x[2], _short(x[3]), _short(x[4])),
                 )
                 root0 = r1
@@ -935,23 +978,25 @@ def scenarios(ctx):
         # grids/heights/caches do not depend on the keep-set (except height, kept in set 2)
         for a, c, ka, kc in (("R", "K", 0, 0), ("K", "A", 0, 2), ("A", "B", 2, 0), ("B", "B", 0, 0)):
             sc([[a, ka], [c, kc]], ["G", "H", "Q"])
-        sc([["B", 0], ["C", 1]], ["D", "Q"])
+        sc([["B", 0], ["C", 0]], ["D", "Q"])
         sc([["A", 2], ["B", 2]], ["S", "L"], maxnest=2)
         sc([["R", 1], ["B", 0]], ["L", "Q"], maxnest=2)
     else:
-        for a, c in pairs:
+        keeps = [(0, 0), (1, 2), (2, 1), (0, 1), (2, 0), (1, 1), (2, 2), (0, 2), (1, 0), (2, 1)]
+        d1 = b["depth"] - 1
+        for (a, c), kk in zip(pairs, keeps):
             for ka in range(3):
                 for kc in range(3):
-                    sc([[a, ka], [c, kc]], ["P", "D"])
-        for a, c in pairs:
+                    sc([[a, ka], [c, kc]], ["P", "D"], depth=b["depth"] if (ka, kc) == kk else d1)
+        for j, (a, c) in enumerate(pairs):
             for ka, kc in ((0, 0), (2, 2), (0, 2)):
-                sc([[a, ka], [c, kc]], ["G", "H", "Q"])
-        for a, c in (("B", "C"), ("A", "B"), ("R", "C")):
-            for ka, kc in ((0, 0), (1, 2)):
+                sc([[a, ka], [c, kc]], ["G", "H", "Q"], depth=b["depth"] if (ka, kc) == (0, 0) and j < 4 else d1)
+        for a, c in (("B", "C"), ("A", "B"), ("R", "C"), ("C", "C2")):
+            for ka, kc in ((0, 0), (1, 0)):
                 sc([[a, ka], [c, kc]], ["D", "Q"])
         for tri in (("R", "A", "B"), ("K", "B", "C"), ("B", "B", "B"), ("C", "B", "R")):
             for ks in ((0, 0, 0), (1, 2, 0), (2, 1, 2), (0, 2, 1)):
-                sc([[o, k] for o, k in zip(tri, ks)], ["P", "G"], depth=6)
+                sc([[o, k] for o, k in zip(tri, ks)], ["P", "G"], depth=d1)
         for ka, kc in ((2, 2), (0, 2), (2, 0), (1, 1)):
             sc([["A", ka], ["B", kc]], ["S", "L"])
             sc([["R", ka], ["B", kc]], ["L", "Q"])
@@ -968,15 +1013,20 @@ def run(ctx):
     copies = [0]
     # expand() results carry the number of copies made; count them through a thin wrapper
     by_depth = {}
+    cap = int(os.environ.get("C16_DEPTH_CAP", "99"))  # development aid only; recorded in the evidence
     for sc in scs:
-        by_depth.setdefault(sc.pop("depth", b["depth"]), []).append(sc)
+        by_depth.setdefault(min(cap, sc.pop("depth", b["depth"])), []).append(sc)
+    if cap < 99:
+        ctx.notes.append("C16_DEPTH_CAP=%d lowers the depth bounds of this run" % cap)
     for depth, group in sorted(by_depth.items()):
         st = explore.bfs(ctx, MOD, group, depth=depth)
         explore.merge_stats(total, st)
     explore.finish(ctx, total)
     ctx.coverage["exhaustive"] = False  # histories are unbounded; bounds are stated
-    ctx.coverage["depth"] = b["depth"]
+    ctx.coverage["depth"] = min(cap, b["depth"])
+    ctx.coverage["depths"] = {str(k): len(v) for k, v in sorted(by_depth.items())}
     ctx.coverage["scenarios"] = len(scs)
+    ctx.coverage["copies_per_violation_free_state"] = {"history length <= %d" % b["heavy"]: 10, "longer": 6}
     ctx.coverage["scenario_list"] = [{"enters": s["enters"], "muts": s["muts"]} for s in scs]
     for s in total.get("searches", []):
         for k, v in s["ops"].items():
@@ -1002,7 +1052,7 @@ def run(ctx):
     ctx.coverage["readonly_spec"] = spec
     ctx.log("read-only: %d objects, %d assignments" % (nobj, nass))
     ctx.assumptions += [
-        "histories bounded: depth %d (scenarios with three scope objects: 6), nesting <= %d; per scenario 2-3 scope objects with fixed keep-sets and 2-3 mutation operations (projection of the full alphabet); consecutive mutation operations are explored in one order only (they touch disjoint fields)" % (b["depth"], MAXNEST),
+        "histories bounded: depth %d (thorough: one scenario per scope-object pair at that depth, the other keep-set combinations and the three-object scenarios one less), nesting <= %d; per scenario 2-3 scope objects with fixed keep-sets and 2-3 mutation operations (projection of the full alphabet); consecutive mutation operations are explored in one order only (they touch disjoint fields)" % (b["depth"], MAXNEST),
         "one generated third-core hex reactor (3 assemblies x 2 blocks, pin grid, linked dimensions); keep-sets: none / one scalar definition per class / scalar+array+dict+None+unset definitions per class",
         "core and reactor are deep-copied/pickled only in states reached by histories of length <= %d; component, block, assembly in every state" % b["heavy"],
         "class-level Parameter.assigned/_backup reset to the import-time state before every execution",
